@@ -12,6 +12,7 @@ xpmc/x_c14_heat.py from the docstrings) is evaluated on the returned temperature
   bc:r=0 (symmetry)   dT/dr -> 0                            from r = h, 2h, 3h (r = 0 itself is not used)
   axis:value-is-limit T(r=0) = lim T(r), r = 1e-3, 1e-6, 1e-9 of the radius
   initial:limit/rise  sup-distance to the declared initial profile at t = 1e-2, 1e-3, 1e-4 (small at the last, not rising)
+                      (CylindricalSandwich, which cannot sum more than 20 angular modes: low-order moments instead of sup)
   steady:limit        T(100 tscale) = the stated static solution
   finite:*            no NaN/inf at any lattice point inside the closed domain at t > 0
 
@@ -57,7 +58,7 @@ ASSUMPTIONS = [
     "values outside the parameter/time/point alphabets are not explored",
     "the documented problem of each solver is the one transcribed from its docstring: Rod1D family alpha_i T + beta_i dT/dx = gamma_i with d/dx along +x at both ends, linear initial profile TL..TR; "
     "Rectangle with zero-flux sides; Hutchens1 sphere; Hutchens2 with the cylindrical Laplacian (the displayed r^2 is read as the misprint it is: the text says cylindrical and the solution uses I0); "
-    "CylindricalSandwich with the stated static solution T0 + 2 theta T1/pi",
+    "CylindricalSandwich with the declared boundary temperatures T0, T1 (static solution T0 + (T1-T0) 2 theta/pi; the docstring's T0 + 2 theta T1/pi is the same at the default T0 = 0)",
     "for Robin coefficient signs that pump heat in (alpha1*beta1 > 0 or alpha2*beta2 < 0) the documented real-mode series cannot represent the solution; "
     "only the PDE and boundary clauses are evaluated there (counted as skipped_initial_steady_nondissipative)",
     "a residual that exceeds tolerance at Nsum but falls to <= 0.6x with 4x the terms is attributed to series truncation (counted as truncation_limited)",
@@ -89,18 +90,25 @@ CYL_SIZE = {"quick": (5, 10), "thorough": (10, 40)}
 ORDER = ["Rectangle", "CylindricalSandwich", "PlanarSandwich", "PlanarSandwichHot", "PlanarSandwichHalf", "Hutchens1", "Hutchens2",
          "Rod1D"]
 
-# ---- tolerances (class D).  Measured worst residual of the clauses that the pinned tree satisfies, thorough lattice,
-# ---- is noted next to each; tolerance >= 10x that.
+# ---- tolerances.  The series are class D, but each *term* is closed form, so the clauses that do not depend on the
+# ---- truncation (PDE, mode-wise boundary operators, steady state) get FD-limited tolerances; the truncation-dependent
+# ---- ones (initial profile, Gibbs-affected faces) additionally go through the falls-with-Nsum rule.
+# ---- Measured worst residual of the clauses the pinned tree satisfies (thorough lattice) is noted; tolerance >= 10x that.
 TOL = {
-    "pde": 1e-3,        # measured worst: see CALIBRATION below
-    "bc": 1e-3,
-    "sym": 1e-3,
-    "axis": 1e-6,
-    "initial": 1e-3,
-    "rise": 1e-3,
-    "steady": 1e-3,
+    "pde": 1e-3,        # measured worst 2.9e-5 rod family (t = 1e-3 tscale, boundary layer), 9.7e-5 Rectangle, 7.5e-6 Hutchens1, 1.6e-9 Hutchens2
+    "bc": 1e-6,         # measured worst 2.3e-9 (one-sided flux differences); temperature faces 1e-15
+    "sym": 1e-6,        # measured worst 8.6e-9 (Hutchens2), 8.9e-11 (Hutchens1)
+    "axis": 1e-8,       # measured worst 5.1e-13
+    "initial": 1e-4,    # measured worst 1.2e-6 (Nsum = 100 at t = 1e-4 tscale)
+    "rise": 1e-4,       # measured worst 0 on the branches that work
+    "steady": 1e-9,     # measured worst 2.8e-14
 }
-TOL_FAMILY = {"CylindricalSandwich": {"pde": 1e-2, "bc": 1e-2, "initial": 1e-2, "rise": 1e-2, "steady": 1e-2}}
+TOL_FAMILY = {
+    # documented accuracy of the coefficients 1e-3 ("NOTE" in the docstring); mode-wise radial flux faces measured 4.3e-8 (newton tolerance)
+    "CylindricalSandwich": {"pde": 1e-2, "bc": 1e-5, "initial": 1e-2, "rise": 1e-2, "steady": 1e-9},
+    # double series, Nsum = 100: measured worst initial 5.4e-4, rise 3.5e-4 (truncation)
+    "Rectangle": {"initial": 1e-2, "rise": 1e-2},
+}
 FALL = 0.6
 
 
@@ -194,7 +202,7 @@ def evaluate(prob, spec, alt=False):
     if kind == "axis":
         return H.axis(prob, tf)
     if kind == "initial":
-        return H.initial(prob)
+        return H.initial_weak(prob) if getattr(prob, "initial_weak", False) else H.initial(prob)
     if kind == "steady":
         return H.steady(prob, alt=alt)
     raise ValueError(kind)
